@@ -22,7 +22,7 @@ git -C $WT checkout -q --detach $HEAD && git -C $WT checkout -q -- . && rm -f $W
 git -C $MUT checkout -q --detach $HEAD && git -C $MUT checkout -q -- .
 mkdir -p $H2/evidence
 rsync -a --delete --exclude target --exclude 'fuzz/target' --exclude 'fuzz/corpus' --exclude 'fuzz/artifacts' "$ROOT/harness" $H2/
-sed -i 's#xot = { path = "/repo" }#xot = { path = "/tmp/wt-mut" }#' $H2/harness/Cargo.toml
+sed -i 's#xot = { path = "/repo" }#xot = { path = "/tmp/wt-mut" }#' $H2/harness/Cargo.toml $H2/harness/deep/Cargo.toml
 ln -sfn "$ROOT/corpus" $H2/corpus; cp "$ROOT/known_findings.txt" $H2/
 if ! git -C $WT apply "$D/patch.diff" 2>/tmp/apply.err; then echo "RESULT patch does not apply"; cat /tmp/apply.err; exit 3; fi
 suite=$(cd $WT && CARGO_TARGET_DIR=/tmp/wt-verify-target cargo test --offline 2>&1 | grep -E "^test result" | awk '{p+=$4; f+=$6} END {print p" "f}')
